@@ -49,15 +49,25 @@ Iter(re, w, cur, done, min, max) ==
   ELSE LET nxt == UNION { Ends(re, w, p) : p \in cur }
        IN  (IF done >= min THEN cur ELSE {}) \cup Iter(re, w, nxt, done + 1, min, max)
 
-\* Counted repetition of a single leaf, in closed form (no recursion: a{66000} on an input of
-\* 66 000 characters is evaluated by one bounded quantifier instead of a recursion 66 000 deep,
-\* C17).  run = number of consecutive atoms of the leaf from position i.  RepLeafLemma states
-\* that this is Iter; bin/check has TLC evaluate it on all small cases (leg L-RepLeaf of C17).
-RepLeaf(set, w, i, min, max) ==
-  LET bad == { k \in i..Len(w) : ~InLeaf(set, w[k]) }
-      run == IF bad = {} THEN Len(w) - i + 1 ELSE (CHOOSE k \in bad : \A k2 \in bad : k <= k2) - i
-      hi  == IF max = -1 \/ max > run THEN run ELSE max
-  IN  { i + c : c \in min..hi }
+\* Counted repetition of a single leaf without iterating match by match: a{66000} on an input of
+\* 66 000 characters would otherwise be a recursion 66 000 deep (C17; quadratic in TLC).  RunLenC
+\* counts the consecutive atoms of the leaf in w[i..limit] in chunks of `chunk` positions (one
+\* bounded quantifier per chunk, recursion depth run/chunk) and looks no further than the end of
+\* the run.  RepLeafLemma states that RepLeaf is Iter for every chunk size; bin/check has TLC
+\* evaluate it on all small cases with chunks 1..3 (leg L-RepLeaf of C17).
+Min2(a, b) == IF a <= b THEN a ELSE b
+RECURSIVE RunLenC(_, _, _, _, _)
+RunLenC(set, w, i, limit, chunk) ==
+  IF i > limit THEN 0
+  ELSE LET top == Min2(limit, i + chunk - 1)
+           bad == { k \in i..top : ~InLeaf(set, w[k]) } IN
+       IF bad = {} THEN (top - i + 1) + RunLenC(set, w, top + 1, limit, chunk)
+       ELSE (CHOOSE k \in bad : \A k2 \in bad : k <= k2) - i
+RepLeafC(set, w, i, min, max, chunk) ==
+  LET limit == IF max = -1 THEN Len(w) ELSE Min2(Len(w), i + max - 1)    \* no match reaches beyond
+      run   == RunLenC(set, w, i, limit, chunk)
+  IN  { i + c : c \in min..run }
+RepLeaf(set, w, i, min, max) == RepLeafC(set, w, i, min, max, 64)
 
 Ends(re, w, i) ==
   CASE re.op = "eps"  -> {i}
@@ -72,10 +82,11 @@ Ends(re, w, i) ==
 
 Matches(re, w, i, j) == j \in Ends(re, w, i)
 
-\* the closed form agrees with the iteration (evaluated over small words, bounds and leaves)
+\* the chunked count agrees with the iteration (evaluated over small words, bounds, leaves, chunks)
 RepLeafLemma(Words, Sets, N) ==
   \A w \in Words : \A set \in Sets : \A i \in 1..(Len(w) + 1) : \A min \in 0..N : \A max \in {-1} \cup (min..N) :
-    RepLeaf(set, w, i, min, max) = Iter([op |-> "cls", set |-> set], w, {i}, 0, min, max)
+    \A chunk \in 1..3 :
+      RepLeafC(set, w, i, min, max, chunk) = Iter([op |-> "cls", set |-> set], w, {i}, 0, min, max)
 
 RECURSIVE Nullable(_)
 Nullable(re) ==
